@@ -313,7 +313,7 @@ def register_constructor(reg):
                    'AxisymmetricVoxel._build_csg_from_rectangle': LG('_build_csg_from_rectangle'),
                    'AxisymmetricVoxel._build_csg_from_triangle': LG('_build_csg_from_triangle')},
         loops={1: dict(invariant=["unchanged('$d2:real')", "unchanged('_triangles:ref')", "unchanged('_vertices:ref')"])},
-        flags={'stmts_after_loop': True}, raises_any=["ValueError", "TypeError"],
+        flags={'stmts_after_loop': True, 'replay_decides': True}, raises_any=["ValueError", "TypeError"],
         ensures=[("triangulated_final_vertices", post)])
 
 
